@@ -315,6 +315,25 @@ impl Op {
     }
 }
 
+/// Ages (in whole days) at which a snapshot's time falls on or next to a landmark of the calendar
+/// rather than of the targets: before 1970, the epoch itself, the instants 10^8 s and 10^9 s
+/// (where second/millisecond heuristics have their seams), and a century back.
+pub const EPOCH_OFFSETS: [i64; 16] = [-36500, -2500, -400, -2, -1, 0, 1, 2, 1156, 1157, 1158, 1159, 3000, 11573, 11574, 11575];
+
+pub fn today_days() -> i64 {
+    chrono::Utc::now().timestamp().div_euclid(86400)
+}
+
+/// The age an `Op::AgeSnapshot { days }` stands for: below 60000 the number itself; from 60000 on
+/// an age relative to the calendar - the snapshot is placed `days - 62500` days after 1970-01-01.
+pub fn age_days(days: u16) -> i64 {
+    if days < 60000 {
+        days as i64
+    } else {
+        today_days() - (days as i64 - 62500)
+    }
+}
+
 #[derive(Clone, Debug, Serialize, Deserialize, PartialEq, Eq, Hash)]
 pub struct Cfg {
     pub snapshot_days: i64,
@@ -365,6 +384,9 @@ pub struct GenParams {
     /// argument of the library entry points (the HTTP handlers refuse an empty body, so histories
     /// driven over HTTP send one byte instead - see hist.rs)
     pub empty_permille: u32,
+    /// probability (0..100) that an upload repeats, byte for byte, the payload of an earlier upload
+    /// of the same kind (mostly the same client's most recent one)
+    pub dup_payload_pct: u32,
 }
 
 impl Default for GenParams {
@@ -382,6 +404,7 @@ impl Default for GenParams {
             big_permille: 0,
             empty_client_pct: 8,
             empty_permille: 0,
+            dup_payload_pct: 12,
         }
     }
 }
@@ -475,7 +498,12 @@ pub fn op(n: u8, p: &GenParams) -> BoxedStrategy<Op> {
         }).prop_map(|(c, version, data)| Op::AddSnapshot { c, version, data }),
         p.w[3] => client_idx(n).prop_map(|c| Op::GetSnapshot { c }),
         p.w[4] => Just(Op::Reopen),
-        p.w[5] => (client_idx(n), prop_oneof![0u16..8, 0u16..40]).prop_map(|(c, days)| Op::AgeSnapshot { c, days }),
+        p.w[5] => (client_idx(n), prop_oneof![
+            4 => 0u16..8,
+            4 => 0u16..40,
+            1 => prop::sample::select(EPOCH_OFFSETS.to_vec()).prop_map(|o| (62500 + o.clamp(-2500, 3035)) as u16),
+            1 => (60000u16..=65535),
+        ]).prop_map(|(c, days)| Op::AgeSnapshot { c, days }),
     ]
     .boxed()
 }
@@ -516,16 +544,49 @@ pub fn case(p: &GenParams) -> BoxedStrategy<Case> {
                     out
                 })
             };
+            let dup = p.dup_payload_pct;
             (
                 Just(n),
                 Just(cfg),
                 Just(salt & 0xFFFF),
                 first,
                 proptest::collection::vec(op(n, &p), p.min_ops..=p.max_ops),
+                proptest::collection::vec((0u32..100, 0u8..3), p.max_ops + 2 * n as usize + 1),
+                Just(dup),
             )
         })
-        .prop_map(|(n, cfg, salt, mut first, ops)| {
+        .prop_map(|(n, cfg, salt, mut first, ops, dice, dup)| {
             first.extend(ops);
+            // repeated payloads: the same bytes uploaded again (as the next version, as the next
+            // snapshot, by another client)
+            let mut last_v: Vec<Option<BytesSpec>> = vec![None; n as usize];
+            let mut last_s: Vec<Option<BytesSpec>> = vec![None; n as usize];
+            for (i, o) in first.iter_mut().enumerate() {
+                let (roll, who) = dice.get(i).copied().unwrap_or((99, 0));
+                match o {
+                    Op::AddVersion { c, data, .. } => {
+                        let ci = *c as usize % n as usize;
+                        let src = if who == 2 { (ci + 1) % n as usize } else { ci };
+                        if roll < dup {
+                            if let Some(d) = &last_v[src] {
+                                *data = d.clone();
+                            }
+                        }
+                        last_v[ci] = Some(data.clone());
+                    }
+                    Op::AddSnapshot { c, data, .. } => {
+                        let ci = *c as usize % n as usize;
+                        let src = if who == 2 { (ci + 1) % n as usize } else { ci };
+                        if roll < dup {
+                            if let Some(d) = &last_s[src] {
+                                *data = d.clone();
+                            }
+                        }
+                        last_s[ci] = Some(data.clone());
+                    }
+                    _ => {}
+                }
+            }
             Case { cfg, salt, nclients: n, ops: first }
         })
         .boxed()
